@@ -23,3 +23,6 @@ Example C02_body_norm :
   norm_tree (TV (VList [VBytes []; VDouble 9221120237041090561; VMap [([1], VBytes [])]])) =
   TV (VList [VEmpty; VDouble 9221120237041090560; VMap [([1], VEmpty)]]) /\ norm_tree (TV (VBytes [])) = TV (VBytes []).
 Proof. vm_compute. split; reflexivity. Qed.
+
+(* grouping by resource / scope identifier: see C01_identifiers_injective (Otlp/Ids.v); the same identifiers are used for
+   this signal and are compared character for character with the real ones on every run (id_mismatch) *)
